@@ -15,7 +15,7 @@ from . import c09
 
 preimport = c09.preimport  # the concurrent part runs under the controlled scheduler (vf/sched.py)
 
-ROOT_CTX = [None, {}, {"k": 1}, {"k": 2}, {"k": 1, "j": "@fn"}]
+ROOT_CTX = [None, {}, {"k": 1}, {"k": 2}, {"k": 1, "j": "@fn"}, {"plan": 1}, {"plan": 2}]  # "plan" is also the parameter name of every node
 EDGE = [None, {}, {"k": 3}]
 
 
@@ -180,6 +180,57 @@ def pfc_case(args):
     return out
 
 
+def aftermath_case(args):
+    """A call made under context arguments / with further calls prevented FAILS half way (the store reports an I/O error at
+    its k-th look-up): nothing of that call may stick to the thread - the next, unrelated top-level calls are ordinary calls."""
+    from .c15 import mk_backend, use
+    from .. import audit
+    from ..fixtures import c10fx as fx
+
+    kind, what, k = args
+    top = scratch_dir("c16a")
+    out = {"evaluations": 1, "states": 1, "transitions": 2, "traces": 1, "violations": [], "outcomes": ["aftermath|%s|%s|%d" % (kind, what, k)]}
+    try:
+        b = mk_backend(kind, os.path.join(top, "s"))
+        use(b)
+        real = b.get_mementos
+        count = [0]
+
+        def flaky(fns):
+            count[0] += 1
+            if count[0] == k:
+                raise IOError("injected: the store cannot be reached")
+            return real(fns)
+
+        b.get_mementos = flaky
+        f = fx.n0.with_context_args({"k": 1}) if what == "context" else fx.n0.with_prevent_further_calls(True)
+        try:
+            f([["r", "first"]])
+            first = "returned"
+        except Exception as e:
+            first = type(e).__name__
+        b.get_mementos = real
+        audit.bodies_reset()
+        try:
+            got = fx.n1([["c", 3, []]])  # an ordinary call with a nested call, no modifiers
+        except Exception as e:
+            got = "EXC:%s:%s" % (type(e).__name__, str(e)[:60])
+        bad = None
+        if got != ["n1", ["n3"]]:
+            bad = ("later-call-affected", "after the failed call (%s), the ordinary call n1 -> n3 gave %r" % (first, got))
+        else:
+            for node, plan in ((fx.n1, [["c", 3, []]]), (fx.n3, [])):
+                mm = node.memento(plan)
+                if mm is None or mm.invocation_metadata.fn_reference_with_args.context_args:
+                    bad = ("later-call-context", "after the failed call (%s), %s(%s) is stored %s" % (first, node.__name__, plan, "under context arguments of the failed call" if mm else "nowhere without context arguments"))
+                    break
+        if bad:
+            out["violations"].append(("aftermath|%s|failed-call:%s|%s" % (kind, what, bad[0]), bad[1] + "\nbackend=%s the store failed at look-up #%d" % (kind, k), {"aftermath": [kind, what, k]}))
+    finally:
+        rm(top)
+    return out
+
+
 def run(ctx):
     thorough = ctx.tier == "thorough"
     ctx.rule = ("chain root->mid->leaf (9 edge-override assignments) and diamond root->{mid1,mid2}->leaf (%d assignments) x ordered "
@@ -218,6 +269,9 @@ def run(ctx):
         cs.append(("%s|cold|context-chain-vs-plain-chain" % be, be, "cold", [[("top1@ctx", 1)], [("top2", 1)]]))
     c09.concurrent_part(ctx, cs, "ctx", "a call chain made under context arguments in one thread while another thread makes calls without "
                         "them (each call must be stored under exactly its own context arguments)", bound=2 if thorough else 1)
+    at = [(kind, what, k) for kind in ("mem", "fsc") for what in ("context", "prevented") for k in (1, 2, 3)]
+    ctx.merge(pmap(aftermath_case, at, chunksize=2))
+    ctx.rule += " Plus: a call under context arguments / with calls prevented that fails because the store raises at its k-th look-up (k = 1..3); the next ordinary calls are unaffected."
     ctx.extra["context_pair_cases"] = len(tasks)
     ctx.extra["prevent_further_calls_cases"] = len(ptasks)
     ctx.sample({"pair": list(tasks[len(tasks) // 2])})
@@ -228,6 +282,12 @@ def replay(ctx, art):
     a = art["artefact"]
     if "scn" in a:
         return c09.replay_concurrent("C16", art)
+    if "aftermath" in a:
+        r = aftermath_case(tuple(a["aftermath"]))
+        for v in r["violations"]:
+            print(v[0], "\n", v[1])
+        print("REPLAY property=C16 result=%s" % bool(r["violations"]))
+        return 1 if r["violations"] else 0
     r = pair_case(tuple(a["pair"])) if "pair" in a else pfc_case(tuple(a["pfc"]))
     for v in r["violations"]:
         print(v[0], "\n", v[1])
